@@ -172,7 +172,7 @@ def c09 (T : Table) (args : List String) : String :=
     match slotOf s, kindOf k with
     | some s, some k => if T s k then "wrapped" else "bare"
     | _, _ => "bad-op"
-  | ["rt", t] =>
+  | ["rt", t] | ["mv", t] =>
     match decodeTree t with
     | some n =>
       let ts := pr T n
